@@ -414,3 +414,44 @@ package lib
 //@ func handleConnectingTpReg(regManager *RegistrationManager, reg *DecoyRegistration, logger *log.Logger)
 //@   assigns memory
 //@   trusted
+
+// ---------------- building a registration from a wrapper (C10 family rule, C12 station side, C11 safety) ----------------
+
+//@ import core "github.com/refraction-networking/conjure/pkg/core"
+//@ import geoip "github.com/refraction-networking/conjure/pkg/station/geoip"
+//@ func (t Transport) GetProto() pb.IPProto
+//@   assigns nothing
+//@ func (db geoip.Database) CC(ip net.IP) (string, error)
+//@   assigns nothing
+//@ func (db geoip.Database) ASN(ip net.IP) (uint, error)
+//@   assigns nothing
+//@ func core.GenSharedKeys(clientLibVer uint, sharedSecret []byte, tt pb.TransportType) (core.ConjureSharedKeys, error)
+//@   assigns nothing
+
+//@ func (rm *RegistrationManager) NewRegistration(c2s *pb.ClientToStation, conjureKeys *core.ConjureSharedKeys, includeV6 bool, registrationSource *pb.RegistrationSource) (*DecoyRegistration, error)
+//@   requires rm != nil && c2s != nil && conjureKeys != nil && rm.PhantomSelector != nil && rm.registeredDecoys != nil
+// representation invariant of the transport table: AddTransport never stores a nil transport
+//@   requires forall k pb.TransportType :: k in rm.registeredDecoys.transports ==> rm.registeredDecoys.transports[k] != nil
+//@   ensures @C11 @C12 @C10: result1 == nil ==> result0 != nil && fresh(result0) && result0.RegistrationSource == registrationSource && result0.Keys == conjureKeys
+//@   assigns now()
+//@   checks safety
+
+// C10 (what the detector will accept): an admitted registration never pairs an IPv4 phantom with a non-IPv4 registrant,
+// judged on the phantom that is finally stored (i.e. after registrar overrides).
+// C12 (station side): the registrar's answer is what the station stores - the IPv4 / IPv6 address and the port of the
+// registration response replace the derived ones; transport parameters are replaced only if the client allowed it.
+//@ func (rm *RegistrationManager) NewRegistrationC2SWrapper(c2sw *pb.C2SWrapper, includeV6 bool) (*DecoyRegistration, error)
+//@   requires rm != nil && c2sw != nil && c2sw.RegistrationPayload != nil && rm.PhantomSelector != nil && rm.registeredDecoys != nil && rm.GeoIP != nil
+//@   requires forall k pb.TransportType :: k in rm.registeredDecoys.transports ==> rm.registeredDecoys.transports[k] != nil
+// (well-typedness of the incoming message, stated so that its parts are known to exist at entry)
+//@   requires len(c2sw.RegistrationAddress) >= 0 && (c2sw.RegistrationResponse != nil ==> len(c2sw.RegistrationResponse.Ipv6Addr) >= 0 && (c2sw.RegistrationResponse.DstPort != nil ==> *c2sw.RegistrationResponse.DstPort >= 0) && (c2sw.RegistrationResponse.Ipv4Addr != nil ==> *c2sw.RegistrationResponse.Ipv4Addr >= 0) && (c2sw.RegistrationResponse.TransportParams != nil ==> len(c2sw.RegistrationResponse.TransportParams.Value) >= 0))
+//@   requires c2sw.RegistrationPayload.DisableRegistrarOverrides != nil ==> (*c2sw.RegistrationPayload.DisableRegistrarOverrides || !*c2sw.RegistrationPayload.DisableRegistrarOverrides)
+//@   let rr := c2sw.RegistrationResponse
+//@   ensures @C11: result1 == nil ==> result0 != nil
+//@   ensures @C10: result1 == nil ==> !(isV4(result0.PhantomIp) && !isV4(result0.registrationAddr)) && result0.registrationAddr == c2sw.RegistrationAddress
+//@   ensures @C12: result1 == nil && rr != nil && includeV6 && rr.Ipv6Addr != nil ==> result0.PhantomIp == rr.Ipv6Addr
+//@   ensures @C12: result1 == nil && rr != nil && !includeV6 && rr.Ipv4Addr != nil && *rr.Ipv4Addr != 0 ==> len(result0.PhantomIp) == 4
+//@   ensures @C12: result1 == nil && rr != nil && rr.DstPort != nil ==> result0.PhantomPort == *rr.DstPort % 65536
+//@   ensures @C12: old(c2sw.RegistrationPayload.DisableRegistrarOverrides != nil && *c2sw.RegistrationPayload.DisableRegistrarOverrides) ==> c2sw.RegistrationPayload.TransportParams == old(c2sw.RegistrationPayload.TransportParams)
+//@   ensures @C12: result1 == nil && rr != nil && old(rr.TransportParams) != nil && !old(c2sw.RegistrationPayload.DisableRegistrarOverrides != nil && *c2sw.RegistrationPayload.DisableRegistrarOverrides) ==> c2sw.RegistrationPayload.TransportParams == old(rr.TransportParams)
+//@   checks safety
